@@ -35,6 +35,11 @@ def main():
         if tier == "thorough":
             from sa import selftest
             report.selftest = selftest.run_for(prop, mod, p)
+        if os.environ.get("SA_LIST"):
+            # diagnostic listing of every obligation (not part of the registered commands)
+            for o in report.obligations:
+                if os.environ["SA_LIST"] in ("1", "") or os.environ["SA_LIST"] in f"{o.rule} {o.entity} {o.construct}":
+                    print(f"  {'ok ' if o.ok else 'BAD'} {o.rule} {o.entity} :: {o.construct} [{o.loc}] {o.detail[:160]}")
         rc = finish(report, tier, seed, t0, extra)
         return rc
     except AnalysisError as e:
